@@ -407,6 +407,17 @@ const (
 	hangSeconds     = 20                    // no fake callback for this long = the client hangs
 )
 
+// hangs already seen in this run: after three of them (never on a client that works) the rest of the
+// run does not wait the full hangSeconds for each further one
+var hangsSeen int32
+
+func hangLimit() int {
+	if atomic.LoadInt32(&hangsSeen) >= 3 {
+		return 2
+	}
+	return hangSeconds
+}
+
 // runImpl runs one (sanitized) case on the real client.  unreliable: the log depends on a wall-clock
 // class that could not be enforced (or the client hung); hungBlocked: it hung while the fake was
 // keeping the output channel full, i.e. it stopped sending status updates (the C18 monitor's case).
@@ -442,7 +453,8 @@ func runImpl(c Case) (log []Obs, unreliable bool, hungBlocked bool) {
 		case <-time.After(time.Second):
 			if a := atomic.LoadInt64(&w.activity); a != last {
 				last, idle = a, 0
-			} else if idle++; idle >= hangSeconds {
+			} else if idle++; idle >= hangLimit() {
+				atomic.AddInt32(&hangsSeen, 1)
 				w.mu.Lock()
 				w.dead = true
 				hungBlocked = w.blk != nil
@@ -801,6 +813,11 @@ func monitor(c Case, log []Obs) []core.Violation {
 				// the events consumed so far is what the client knows
 				if o.Lsn != maxCommit {
 					add("C03", "restart-position-wrong", fmt.Sprintf("replication re-requested from %d, the last COMMIT received (or recovery position) is %d", o.Lsn, maxCommit))
+					if c.PgLike {
+						// C07's last clause: after a dropped BEGIN (or a lost connection) the stream is
+						// re-requested from the last received COMMIT
+						add("C07", "stream-not-re-requested-from-last-commit", fmt.Sprintf("replication re-requested from %d, the last COMMIT received is %d", o.Lsn, maxCommit))
+					}
 				}
 			}
 			if o.Fresh && k < 0 && o.Lsn != 0 {
@@ -850,8 +867,8 @@ func beginWithoutCommitMonitor(c Case, log []Obs) []core.Violation {
 	var vs []core.Violation
 	script := append([]Event{c.First}, c.Events...)
 	k := -1
-	open := false  // a BEGIN was received on this delivery and no COMMIT yet
-	first := true  // nothing accepted yet since start / since the last forced reconnect
+	open := false // a BEGIN was received on this delivery and no COMMIT yet
+	first := true // nothing accepted yet since start / since the last forced reconnect
 	var maxCommit uint64
 	for i := 0; i < len(log); i++ {
 		if log[i].K != "recv" {
